@@ -17,7 +17,7 @@ for pid in ids:
         checks.append(dict(property_id=pid, quick_cmd="./check %s quick" % pid, thorough_cmd="./check %s thorough" % pid,
                            evidence_file="evidence/%s.json" % pid, replay_cmd_template="./check %s --replay {path}" % pid,
                            engine=c.get("engine", "pyvc"),
-                           level_claimed=dict(category=c.get("category", "proof"), text=c["text"], design_ref=c.get("design_ref", "DESIGN.md section 5, %s" % pid)),
+                           level_claimed=dict(category=c.get("category", "proof"), text=c["text"], design_ref=c.get("design_ref", ("DESIGN.md section 5, %s" % pid) if pid not in ("C20", "C21", "C24", "C28", "C31", "C32") else ("DESIGN.md section 10.3 (row %s and the paragraph below the table), docstring of contracts/%s.py" % (pid, pid)))),
                            level_note=c["note"], technique=c.get("technique", "contract-based deductive verification: VCs from the real function text (pyvc) discharged by z3/cvc5")))
 na = []
 for pid in ids:
